@@ -77,7 +77,11 @@ impl Monitor for C04 {
                         alt_ctor,
                     )
                 };
-                let src = Src::new(data.clone(), policy.clone(), (k as u64) << 8 | idx).failing_at(k);
+                let mut src = Src::new(data.clone(), policy.clone(), (k as u64) << 8 | idx).failing_at(k);
+                if variant == 1 && (k + idx as usize) % 11 == 0 {
+                    // a storm of Interrupted results in front of an early read (possibly the failing one)
+                    src = src.with_storm(1 + (k as u64 % 5), [129u32, 300, 1000][k % 3]);
+                }
                 let tr = sut(|| drive::run_collect(cfg, ctor, src.clone()));
                 rep.inc("fault_runs");
                 let log = src.log();
